@@ -98,20 +98,43 @@ std::string write_read(std::string const& dev, View const& v, std::string const&
     bool huge = (long long)back.width() * back.height() > 4ll * v.width() * v.height() + 64;
     return head + " | " + std::to_string(back.width()) + " " + std::to_string(back.height()) + " " + (huge ? std::string("-") : hex(dump<CB>(gil::const_view(back)))); }
 
-// ---- organisations.  Planar / Alt = void when the pixel type has none.
-template <typename Tag, typename Img, int CB, typename Planar, typename Alt, typename Info = Tag>
+// ---- organisations = source image type x view kind:  org = [<source>-]<kind>
+//   source: (none) the pixel type itself | pl planar | alt / alt2 / alt3 other channel orders (incl. the order the file stores)
+//   kind:   il whole image | sub sub-view | step (2,2)-subsampled | xstep (2,1)-subsampled | flip up-down | fliplr left-right
+//           (negative x step) | transp transposed | rot90 rotated 90 cw            (legacy names: pl = pl-il, alt = alt-il)
+// Full = false instantiates only il / step / fliplr / transp for that source (compile time).
+template <typename Tag, typename Img, int CB, typename Src, bool Full, typename Info>
+std::string rt_kind(std::string const& kind, std::string const& dev, int w, int h, bytes const& px, std::string const& path, bool show_bytes, Info const& info) {
+    if (kind == "il") { Src img(w, h); fill<CB>(gil::view(img), px); return write_read<Tag, Img, CB>(dev, gil::view(img), path, show_bytes, info); }
+    if (kind == "step") { Src big(2 * w, 2 * h); junk(gil::view(big)); auto v = gil::subsampled_view(gil::view(big), 2, 2); fill<CB>(v, px);
+        return write_read<Tag, Img, CB>(dev, v, path, show_bytes, info); }
+    if (kind == "fliplr") { Src img(w, h); auto v = gil::flipped_left_right_view(gil::view(img)); fill<CB>(v, px);
+        return write_read<Tag, Img, CB>(dev, v, path, show_bytes, info); }
+    if (kind == "transp") { Src img(h, w); auto v = gil::transposed_view(gil::view(img)); fill<CB>(v, px);
+        return write_read<Tag, Img, CB>(dev, v, path, show_bytes, info); }
+    if constexpr (Full) {
+        if (kind == "sub") { Src big(w + 3, h + 2); junk(gil::view(big)); auto v = gil::subimage_view(gil::view(big), 2, 1, w, h); fill<CB>(v, px);
+            return write_read<Tag, Img, CB>(dev, v, path, show_bytes, info); }
+        if (kind == "xstep") { Src big(2 * w, h); junk(gil::view(big)); auto v = gil::subsampled_view(gil::view(big), 2, 1); fill<CB>(v, px);
+            return write_read<Tag, Img, CB>(dev, v, path, show_bytes, info); }
+        if (kind == "flip") { Src img(w, h); auto v = gil::flipped_up_down_view(gil::view(img)); fill<CB>(v, px);
+            return write_read<Tag, Img, CB>(dev, v, path, show_bytes, info); }
+        if (kind == "rot90") { Src img(h, w); auto v = gil::rotated90cw_view(gil::view(img)); fill<CB>(v, px);
+            return write_read<Tag, Img, CB>(dev, v, path, show_bytes, info); }
+    }
+    return "bad-org"; }
+
+template <typename Tag, typename Img, int CB, typename Planar, typename Alt, typename Info = Tag, typename Alt2 = void, typename Alt3 = void, bool Full = true>
 std::string round_trip(std::string const& org, std::string const& dev, int w, int h, bytes const& px, std::string const& path, bool show_bytes, Info const& info = Info()) {
-    if (org == "il") { Img img(w, h); fill<CB>(gil::view(img), px); return write_read<Tag, Img, CB>(dev, gil::view(img), path, show_bytes, info); }
-    if (org == "sub") { Img big(w + 3, h + 2); junk(gil::view(big)); auto v = gil::subimage_view(gil::view(big), 2, 1, w, h); fill<CB>(v, px);
-        return write_read<Tag, Img, CB>(dev, v, path, show_bytes, info); }
-    if (org == "step") { Img big(2 * w, 2 * h); junk(gil::view(big)); auto v = gil::subsampled_view(gil::view(big), 2, 2); fill<CB>(v, px);
-        return write_read<Tag, Img, CB>(dev, v, path, show_bytes, info); }
-    if (org == "flip") { Img img(w, h); auto v = gil::flipped_up_down_view(gil::view(img)); fill<CB>(v, px);
-        return write_read<Tag, Img, CB>(dev, v, path, show_bytes, info); }
-    if constexpr (!std::is_void<Planar>::value) if (org == "pl") { Planar img(w, h); fill<CB>(gil::view(img), px);
-        return write_read<Tag, Img, CB>(dev, gil::const_view(img), path, show_bytes, info); }
-    if constexpr (!std::is_void<Alt>::value) if (org == "alt") { Alt img(w, h); fill<CB>(gil::view(img), px);
-        return write_read<Tag, Img, CB>(dev, gil::const_view(img), path, show_bytes, info); }
+    std::string src, kind = org;
+    size_t d = org.find('-');
+    if (d != std::string::npos) { src = org.substr(0, d); kind = org.substr(d + 1); }
+    else if (org == "pl" || org == "alt") { src = org; kind = "il"; }
+    if (src.empty()) return rt_kind<Tag, Img, CB, Img, true>(kind, dev, w, h, px, path, show_bytes, info);
+    if constexpr (!std::is_void<Planar>::value) if (src == "pl") return rt_kind<Tag, Img, CB, Planar, false>(kind, dev, w, h, px, path, show_bytes, info);
+    if constexpr (!std::is_void<Alt>::value) if (src == "alt") return rt_kind<Tag, Img, CB, Alt, Full>(kind, dev, w, h, px, path, show_bytes, info);
+    if constexpr (!std::is_void<Alt2>::value) if (src == "alt2") return rt_kind<Tag, Img, CB, Alt2, Full>(kind, dev, w, h, px, path, show_bytes, info);
+    if constexpr (!std::is_void<Alt3>::value) if (src == "alt3") return rt_kind<Tag, Img, CB, Alt3, false>(kind, dev, w, h, px, path, show_bytes, info);
     return "bad-org"; }
 
 // the pnm writer static_asserts View == gray1_image_t::view_t: only mutable, unstepped views of a gray1 image compile
